@@ -30,6 +30,7 @@ OPS = "soundevent.geometry.operations"
 AOPS = "soundevent.arrays.operations"
 DIMS = "soundevent.arrays.dimensions"
 TASKS = "soundevent.evaluation.tasks"
+CROW = "soundevent.io.crowsetta"
 TAGS = ["TimeStamp", "TimeInterval", "Point", "LineString", "Polygon", "BoundingBox", "MultiPoint", "MultiLineString", "MultiPolygon"]
 
 
@@ -66,9 +67,31 @@ SERVES: Dict[str, List[Tuple[str, str, dict]]] = {
     "C09": [(f"{TASKS}.clip_classification", "clip_classification", {"why": "every list of clip predictions / annotations is evaluated"}),
             (f"{TASKS}.clip_multilabel_classification", "clip_multilabel_classification", {"why": "every list of clip predictions / annotations is evaluated"}),
             (f"{TASKS}.sound_event_classification", "sound_event_classification", {"why": "every list of clip predictions / annotations is evaluated"})],
+    "C10": [(f"{CROW}.bbox", "bbox_to_annotation", {"why": "every crowsetta bounding box becomes a sound event annotation"}),
+            (f"{CROW}.bbox", "bbox_from_annotation", {"valid": [("cmp", "isnot", ("attr", ("attr", P("obj"), "sound_event"), "geometry"), NONE)],
+                                                      "why": "every annotation with a geometry is exported (unsuitable geometry types are convert_geometry_to_bbox's rejection)"}),
+            (f"{CROW}.bbox", "convert_geometry_to_bbox", {"enum": {("attr", P("geometry"), "type"): TAGS},
+                                                          "valid": [("or", (("cmp", "eq", ("attr", P("geometry"), "type"), C("BoundingBox")), P("cast_to_bbox"))),
+                                                                    NOT(("and", (("cmp", "in", ("attr", P("geometry"), "type"), ("list", (C("TimeInterval"), C("TimeStamp")))), P("raise_on_time_geometries"))))],
+                                                          "why": "every bounding box is kept, every other geometry is cast when casting is requested (time-only ones unless the caller asks for an error)"}),
+            (f"{CROW}.segment", "segment_from_annotation", {"valid": [("cmp", "isnot", ("attr", ("attr", P("obj"), "sound_event"), "geometry"), NONE)],
+                                                            "why": "every annotation with a geometry is exported"}),
+            (f"{CROW}.segment", "convert_geometry_to_interval", {"enum": {("attr", P("geometry"), "type"): TAGS},
+                                                                 "valid": [("or", (("cmp", "eq", ("attr", P("geometry"), "type"), C("TimeInterval")), P("cast_to_segment")))],
+                                                                 "why": "every time interval is kept, every other geometry is cast when casting is requested"}),
+            (f"{CROW}.segment", "segment_to_annotation", {"valid": [("or", (("cmp", "isnot", ("attr", P("segment"), "onset_s"), NONE), ("cmp", "isnot", ("attr", P("segment"), "onset_sample"), NONE))),
+                                                                    ("or", (("cmp", "isnot", ("attr", P("segment"), "offset_s"), NONE), ("cmp", "isnot", ("attr", P("segment"), "offset_sample"), NONE)))],
+                                                          "why": "every segment with an onset and an offset (in seconds or samples) becomes an annotation"}),
+            (f"{CROW}.sequence", "sequence_to_annotations", {"why": "every crowsetta sequence becomes a list of annotations"}),
+            (f"{CROW}.labels", "label_to_tags", {"why": "every label is turned into tags under every option"}),
+            (f"{CROW}.labels", "label_from_tag", {"why": "every tag has a label under every option"}),
+            (f"{CROW}.labels", "label_from_tags", {"why": "every tag list has a label under every option"})],
     "C11": [(OPS, "buffer_geometry", {"valid": [mk_cmp("ge", P("time_buffer"), C(0)), mk_cmp("ge", P("freq_buffer"), C(0))],
                                       "enum": {("attr", P("geometry"), "type"): TAGS}, "why": "every geometry is buffered by every pair of non-negative buffers"})],
-    "C12": [(OPS, "have_temporal_overlap", {"why": "the predicate is defined for every pair of geometries (thresholds are intervals_overlap's)"}),
+    "C12": [(OPS, "intervals_overlap", {"valid": [("or", (("cmp", "is", P("min_absolute_overlap"), NONE), ("cmp", "is", P("min_relative_overlap"), NONE))),
+                                                  mk_cmp("ge", P("min_relative_overlap"), C(0)), mk_cmp("le", P("min_relative_overlap"), C(1))],
+                                        "why": "every pair of intervals is compared for every single threshold (a relative one in [0, 1])"}),
+            (OPS, "have_temporal_overlap", {"why": "the predicate is defined for every pair of geometries (thresholds are intervals_overlap's)"}),
             (OPS, "have_frequency_overlap", {"why": "the predicate is defined for every pair of geometries (thresholds are intervals_overlap's)"})],
     "C13": [(OPS, "group_sound_events", {"why": "every list of sound events is partitioned"}),
             (OPS, "_compute_similarity_matrix", {"why": "every list of sound events has a similarity matrix"})],
@@ -411,7 +434,8 @@ def check_function(ctx: Ctx, rule: str, modname: str, fname: str, spec: dict) ->
         else:
             valid.append(a)
     # optional parameters: both readings of `p is None`
-    nones = sorted({x[2] for r in s.events for x in walk(r.live) if x[0] == "cmp" and x[1] in ("is", "isnot") and x[3] == NONE and x[2][0] == "param"}, key=repr)
+    nones = sorted({x[2] for r in s.events for x in walk(r.live) if x[0] == "cmp" and x[1] in ("is", "isnot") and x[3] == NONE
+                    and (x[2][0] == "param" or (x[2][0] == "attr" and _input_determined(x[2], params, extra)))}, key=repr)
     optional = []
     a_ = s.node.args
     allp = list(a_.posonlyargs) + list(a_.args)
@@ -419,6 +443,9 @@ def check_function(ctx: Ctx, rule: str, modname: str, fname: str, spec: dict) ->
     dflt.update({p.arg: d for p, d in zip(a_.kwonlyargs, a_.kw_defaults) if d is not None})
     import ast as _ast
     for p in nones:
+        if p[0] != "param":
+            optional.append(p)  # an attribute of an input that may be None: both readings are inputs
+            continue
         d = dflt.get(p[1])
         ann = next((x.annotation for x in allp + list(a_.kwonlyargs) if x.arg == p[1]), None)
         anntext = _ast.unparse(ann) if ann is not None else ""
@@ -450,11 +477,14 @@ def check_function(ctx: Ctx, rule: str, modname: str, fname: str, spec: dict) ->
                 box0 = _Box()
                 venv = {}
                 skip_params = {p for p, isnone in zip(optional, none_vals) if isnone}
+                invalid_scenario = False
                 for a in valid:
-                    if any(x in skip_params for x in walk(a)):
-                        continue
                     av = peval(a, env)
                     if av[0] == "const":
+                        if not av[1]:
+                            invalid_scenario = True  # this reading of the optional parameters is not a valid request
+                        continue
+                    if any(x in skip_params for x in walk(av)):
                         continue
                     venv[av] = True
                     na = NOT(av)
@@ -467,6 +497,8 @@ def check_function(ctx: Ctx, rule: str, modname: str, fname: str, spec: dict) ->
                         box0.add(k[1], k[2], k[3])
                     elif k is not None and k[0] == "rel":
                         box0.rel[k[1]] = box0.rel.get(k[1], frozenset("<=>")) & k[2]
+                if invalid_scenario:
+                    continue
                 lv = peval(lv, venv) if venv else lv
                 lv = _simplify(lv)
                 if lv == FALSE or (lv[0] == "const" and not lv[1]):
